@@ -283,3 +283,14 @@ Example C15_depth_example :
   compile_raw true 8 [97%N; ch_close] = Exn ValueError /\
   S (length (tokenize (fold [ch_open; ch_open; ch_open; 97%N; ch_close; ch_close; ch_close]))) = 8.
 Proof. exact depth_raw_example. Qed.
+
+(* The batch entry point (query_service.search_hed_objs): row i of the result is
+   the answer on annotation i alone, wherever None / empty entries stand in the
+   list; a None entry is a row of zeros.  HOLDS BY CONSTRUCTION OF THE MODEL (one
+   map over the rows); that the implementation writes each result to the row of
+   ITS annotation is tested by the harness row by row (lists with None / empty
+   entries at every position), not proved. *)
+Theorem C15_batch_row_by_row : forall fx es rows i,
+  nth_error (search_batch fx es rows) i = option_map (batch_row fx es) (nth_error rows i).
+Proof. exact batch_row_by_row. Qed.
+Print Assumptions C15_batch_row_by_row.
